@@ -167,6 +167,13 @@ def Henry.callU (h : Henry α) (T uK : α) : α :=
   | none => henryHAtTDefaultU T h.Hcp h.Tderiv uK
   | some t0 => henryHAtTU T h.Hcp h.Tderiv t0 uK
 
+/-- `HenryWithUnits.__call__(T, units=default_units)`: `super().__call__(T, units, backend)`, i.e. `Henry.__call__` with the units
+    object, which forwards `self.Hcp, self.Tderiv, self.T0` (the instance's reference temperature) to `Henry_H_at_T` -/
+def Henry.callWithUnits (h : Henry α) (T uK : α) : α := h.callU T uK
+
+/-- the same named tuple with `Tderiv` and `T0` given as quantities in a temperature unit of scale factor `K` (L1: SI values) -/
+def Henry.inUnit [Mul α] (h : Henry α) (K : α) : Henry α := ⟨h.Hcp, h.Tderiv * K, h.T0.map (· * K)⟩
+
 /-- `Henry.get_c_at_T_and_P(T, P)`: `P * self(T)` -/
 def Henry.getC (h : Henry α) (T P : α) : α := P * h.call T
 /-- `Henry.get_P_at_T_and_c(T, c)`: `c / self(T)` -/
